@@ -519,3 +519,216 @@ def limit_sessions(tier, seed):
                           "options": {"soft_timeout_ms": 60000},
                           "meta": {"time_slack_ms": 1500, "count_slack": 1}})
     return [{"id": "lim", "setup": LIM_GRAPH, "cases": cases}]
+
+
+# ----------------------------------------------------------------------------- C12: update statements
+def cps(s):
+    return [ord(c) for c in s]
+
+
+class UGen(Gen):
+    """update statements: a read prefix from Gen followed by update clauses"""
+
+    def scalar(self, depth=0):
+        # identities of nodes created by the statement itself are allocation details the reference
+        # does not predict, so values written by updates never depend on id()
+        for _ in range(20):
+            e = Gen.scalar(self, depth)
+            if "id(" not in e["text"]:
+                return e
+        return lit(1)
+
+    def kv_list(self, keys, allow_null=True):
+        kvs, txt = [], []
+        for k in keys:
+            if self.rng.random() < 0.6 or not self.scope:
+                v = self.rng.choice([1, 2, "a", True, 1.5] + ([None] if allow_null else []))
+                e = lit(v)
+            else:
+                e = self.scalar()
+            kvs.append([k, e["ast"]])
+            txt.append("%s: %s" % (k, e["text"]))
+        return kvs, "{" + ", ".join(txt) + "}"
+
+    def create_clause(self):
+        r = self.rng
+        nodes, rels, txt = [], [], ""
+        hops = r.choice([0, 0, 1, 1, 2])
+        bound = [v for v, k in self.scope.items() if k == "node"]
+        newvars = []
+        for i in range(hops + 1):
+            if bound and r.random() < 0.4 and hops > 0:
+                v = r.choice(bound)
+                nodes.append({"v": v, "labels": [], "props": []})
+                txt += "(%s)" % v
+            else:
+                v = self.fresh("c")
+                labels = r.choice([[], ["A"], ["B"], ["A", "B"]])
+                kvs, ktxt = self.kv_list(r.sample(["p", "q"], r.randint(0, 2)))
+                nodes.append({"v": v, "labels": labels, "props": kvs})
+                txt += "(%s%s%s)" % (v, "".join(":" + l for l in labels), (" " + ktxt) if kvs else "")
+                newvars.append(v)
+            if i < hops:
+                t = r.choice(["R", "S"])
+                d = r.choice(["out", "in"])
+                rv = self.fresh("e") if r.random() < 0.3 else ""
+                kvs, ktxt = self.kv_list(["w"] if r.random() < 0.4 else [])
+                rels.append({"v": rv, "types": [t], "tcps": [cps(t)], "dir": d, "props": kvs, "lo": 1, "hi": 1})
+                inner = "%s:%s%s" % (rv, t, (" " + ktxt) if kvs else "")
+                txt += ("-[%s]->" % inner) if d == "out" else ("<-[%s]-" % inner)
+        for v in newvars:
+            self.scope[v] = "node"
+        return {"t": "create", "pats": [{"nodes": nodes, "rels": rels}]}, "CREATE " + txt
+
+    def set_items(self, allow_labels=True):
+        r = self.rng
+        ents = [(v, k) for v, k in self.scope.items() if k in ("node", "rel")]
+        items, txt = [], []
+        for _ in range(r.randint(1, 2)):
+            v, kind = r.choice(ents)
+            c = r.choice(["prop", "prop", "prop", "map", "label"] if kind == "node" and allow_labels else ["prop", "prop", "map"])
+            if c == "prop":
+                key = r.choice(["p", "q"] if kind == "node" else ["w"])
+                e = self.scalar() if r.random() < 0.5 else lit(r.choice([1, 2, "a", None, True, 1.5]))
+                if r.random() < 0.15:
+                    nodes = [x for x, kk in self.scope.items() if kk == "node"]
+                    if nodes:
+                        # q holds integers only (or is absent): integer arithmetic with null propagation
+                        n = r.choice(nodes)
+                        e = {"ast": ["arith", "add", ["prop", ["var", n], "q"], ["lit", tv_of(1)]], "text": "%s.q + 1" % n}
+                items.append({"k": "prop", "var": v, "key": key, "e": e["ast"]})
+                txt.append("%s.%s = %s" % (v, key, e["text"]))
+            elif c == "map":
+                merge = r.random() < 0.5
+                kvs, ktxt = self.kv_list(r.sample(["p", "q", "z"], r.randint(0, 2)) if kind == "node" else ["w"])
+                items.append({"k": "map", "var": v, "kvs": kvs, "merge": merge})
+                txt.append("%s %s %s" % (v, "+=" if merge else "=", ktxt))
+            else:
+                labels = r.sample(["A", "B", "C"], r.randint(1, 2))
+                items.append({"k": "label", "var": v, "labels": labels})
+                txt.append("%s%s" % (v, "".join(":" + l for l in labels)))
+        return items, ", ".join(txt)
+
+    def remove_items(self):
+        r = self.rng
+        ents = [(v, k) for v, k in self.scope.items() if k in ("node", "rel")]
+        items, txt = [], []
+        for _ in range(r.randint(1, 2)):
+            v, kind = r.choice(ents)
+            if kind == "node" and r.random() < 0.4:
+                labels = [r.choice(["A", "B"])]
+                items.append({"k": "remlabel", "var": v, "labels": labels})
+                txt.append("%s:%s" % (v, labels[0]))
+            else:
+                key = r.choice(["p", "q"] if kind == "node" else ["w"])
+                items.append({"k": "remprop", "var": v, "key": key})
+                txt.append("%s.%s" % (v, key))
+        return items, ", ".join(txt)
+
+    def merge_clause(self):
+        r = self.rng
+        bound = [v for v, k in self.scope.items() if k == "node"]
+        if len(bound) >= 2 and r.random() < 0.5:
+            a, b = r.sample(bound, 2)
+            t = r.choice(["R", "S", "T"])
+            rv = self.fresh("m")
+            mp = {"nodes": [{"v": a, "labels": [], "props": []}, {"v": b, "labels": [], "props": []}],
+                  "rels": [{"v": rv, "types": [t], "dir": "out", "lo": 1, "hi": 1}]}
+            cp = {"nodes": mp["nodes"], "rels": [{"v": rv, "types": [t], "tcps": [cps(t)], "dir": "out", "props": [], "lo": 1, "hi": 1}]}
+            txt = "MERGE (%s)-[%s:%s]->(%s)" % (a, rv, t, b)
+            self.scope[rv] = "rel"
+            var = rv
+        else:
+            v = self.fresh("m")
+            labels = [r.choice(["A", "B", "C"])]
+            val = r.choice([1, 2, "a"])
+            key = r.choice(["p", "q"])
+            props = [[key, ["lit", tv_of(val)]]]
+            mp = {"nodes": [{"v": v, "labels": labels, "props": props}], "rels": []}
+            cp = mp
+            txt = "MERGE (%s:%s {%s: %s})" % (v, labels[0], key, lit_text(val))
+            self.scope[v] = "node"
+            var = v
+        oncreate, onmatch = [], []
+        if r.random() < 0.6:
+            k = "z" if var.startswith("m") and self.scope[var] == "node" else "w"
+            oncreate = [{"k": "prop", "var": var, "key": k, "e": ["lit", tv_of(1)]}]
+            txt += " ON CREATE SET %s.%s = 1" % (var, k)
+        if r.random() < 0.6:
+            k = "y" if self.scope[var] == "node" else "u"
+            onmatch = [{"k": "prop", "var": var, "key": k, "e": ["lit", tv_of(2)]}]
+            txt += " ON MATCH SET %s.%s = 2" % (var, k)
+        return {"t": "merge", "pat": cp, "mpat": mp, "oncreate": oncreate, "onmatch": onmatch}, txt
+
+    def statement(self):
+        r = self.rng
+        parts, texts = [], []
+        shape = r.choice(["create", "create", "match-set", "match-set", "match-remove", "match-delete", "match-create",
+                          "merge", "merge", "match-merge", "unwind-create", "opt-set"])
+        if shape in ("match-set", "match-remove", "match-delete", "match-create", "match-merge"):
+            p, t = self.match(False)
+            parts.append(p)
+            texts.append(t)
+        elif shape == "unwind-create":
+            p, t = self.unwind()
+            parts.append(p)
+            texts.append(t)
+        elif shape == "opt-set":
+            p, t = self.match(False)
+            parts.append(p)
+            texts.append(t)
+            p, t = self.match(True)
+            parts.append(p)
+            texts.append(t)
+        ents = [(v, k) for v, k in self.scope.items() if k in ("node", "rel")]
+        ups, utexts = [], []
+        if shape in ("create", "unwind-create", "match-create"):
+            c, t = self.create_clause()
+            ups.append(c)
+            utexts.append(t)
+            if r.random() < 0.3:
+                items, t = self.set_items()
+                ups.append({"t": "set", "items": items})
+                utexts.append("SET " + t)
+        elif shape in ("match-set", "opt-set") and ents:
+            items, t = self.set_items()
+            ups.append({"t": "set", "items": items})
+            utexts.append("SET " + t)
+        elif shape == "match-remove" and ents:
+            items, t = self.remove_items()
+            ups.append({"t": "remove", "items": items})
+            utexts.append("REMOVE " + t)
+        elif shape == "match-delete" and ents:
+            vs = [v for v, _ in r.sample(ents, min(len(ents), r.randint(1, 2)))]
+            detach = r.random() < 0.6
+            ups.append({"t": "delete", "detach": detach, "vars": vs})
+            utexts.append(("DETACH " if detach else "") + "DELETE " + ", ".join(vs))
+        else:
+            c, t = self.merge_clause()
+            ups.append(c)
+            utexts.append(t)
+        if not ups:
+            c, t = self.create_clause()
+            ups.append(c)
+            utexts.append(t)
+        return {"parts": parts, "updates": ups}, " ".join(texts + utexts)
+
+
+def update_sessions(tier, seed):
+    rng = random.Random(seed)
+    n_sess = 10 if tier == "quick" else 120
+    per = 14 if tier == "quick" else 20
+    sessions = []
+    for g in range(n_sess):
+        setup = gen_graph(rng, "plain")
+        cases = []
+        cid = 0
+        for c in range(per):
+            ast, text = UGen(rng).statement()
+            cid += 1
+            cases.append({"cid": cid, "kind": "upd", "mode": "write", "query": text, "dump": True, "meta": {"ast": ast, "rep": 1}})
+            if ast["updates"][-1]["t"] == "merge":     # repeating a MERGE whose pattern now matches creates nothing
+                cid += 1
+                cases.append({"cid": cid, "kind": "upd", "mode": "write", "query": text, "dump": True, "meta": {"ast": ast, "rep": 2}})
+        sessions.append({"id": "upd/%d" % g, "setup": setup, "dump": True, "cases": cases})
+    return sessions
